@@ -576,6 +576,26 @@ def run_family(binary, d, fam, ceiling=True, tmo=40):
                 out["status"], out["detail"] = "crash", "%s: panic in the query goroutine: %s" % (name, res["qerr"][:700])
                 return out
             out["answers"].append(res)
+        # concurrent round: the log searches again, all at once and twice - readers of the damaged and of the healthy segments
+        # are active in the process at the same time (state shared between readers must not carry damage across segments)
+        logq = [(i, a) for i, (name, op, a) in enumerate(fam) if op == "query"]
+        o = dr.cmd("c18_parallel", timeout=tmo + 20, rounds=2, timeout_ms=int(tmo * 500),
+                   queries=[{k: v for k, v in a.items() if k != "timeout_ms"} for _, a in logq])
+        if not o.get("ok"):
+            err = o.get("err") or ""
+            if "PANIC" in err:
+                out["status"], out["detail"] = "crash", "concurrent round: panic: %s" % err[:5000]
+            return out
+        res = o.get("res")
+        if isinstance(res, dict) and res.get("hang"):
+            out["status"], out["detail"] = "hang", "concurrent round did not finish (process alive)"
+            return out
+        out["par"] = []
+        for a in res or []:
+            if str(a.get("qerr", "")).startswith("PANIC"):
+                out["status"], out["detail"] = "crash", "concurrent round: panic in the query goroutine: %s" % a["qerr"][:700]
+                return out
+            out["par"].append((logq[a["q"]][0], {"qerr": a["qerr"][:300]} if a.get("qerr") else a.get("res")))
         return out
     except vlib.DriverDead as e:
         tail = ""
@@ -765,7 +785,11 @@ class Oracle:
         """-> (class, detail, per-query classes)"""
         order = ["Original", "Omitted", "Error", "Missing", "MatchSetChanged", "Altered", "OtherChanged"]
         worst, wdet, per = "Original", "", []
-        for (name, op, args), ans, base in zip(self.fam, run["answers"], self.base):
+        seq = list(zip(self.fam, run["answers"], self.base))
+        for qi, ans in run.get("par") or []:
+            (name, op, args) = self.fam[qi]
+            seq.append(((name + "/concurrent", op, args), ans, self.base[qi]))
+        for (name, op, args), ans, base in seq:
             if op == "mquery":
                 c, d = self.metrics(ans, base)
             elif "stats" in args["text"]:
@@ -781,8 +805,8 @@ class Oracle:
 VOLATILE = ("elapedTimeMS", "allColumns", "measureFunctions", "columnsOrder")
 
 
-def norm_answers(answers):
-    for x in answers:
+def norm_answers(answers, par=None):
+    for x in list(answers) + [a for _, a in (par or [])]:
         if isinstance(x, dict):
             for k in VOLATILE:
                 x.pop(k, None)
@@ -892,7 +916,7 @@ def run(chk):
             bases.append(b)
             vlib.rmtree(d)
         for b in bases:
-            norm_answers(b["answers"])
+            norm_answers(b["answers"], b.get("par"))
         if bases[0]["answers"] != bases[1]["answers"]:
             raise vlib.Infra("baseline answers are not deterministic")
         base = bases[0]["answers"]
@@ -901,6 +925,9 @@ def run(chk):
         nA = len(docs["A1"]) + len(docs["A2"])
         if len(base[0]["hits"]["records"]) != len(orc.universe) or orc.judge({"answers": base})[0] != "Original":
             raise vlib.Infra("baseline match-all does not return the ingested data")
+        for b in bases:
+            if orc.judge(b)[0] != "Original":
+                raise vlib.Infra("baseline: the concurrent round does not return the sequential answers: %s" % (orc.judge(b)[:2],))
         for r in base[0]["hits"]["records"]:
             if orc.explain(r) is None or len(r) != 8:
                 raise vlib.Infra("baseline record differs from the ingested one: %s" % r)
@@ -918,7 +945,7 @@ def run(chk):
             try:
                 copy_with_fault(master, d, f, case)
                 run = run_family(binary, d, fam)
-                norm_answers(run["answers"])
+                norm_answers(run["answers"], run.get("par"))
                 if run["status"] == "ok":
                     cls, det, per = orc.judge(run)
                 else:
@@ -951,7 +978,7 @@ def run(chk):
             os.makedirs(d)
             try:
                 copy_with_fault(master, d, f, case)
-                rr = run_family(binary, d, fam, ceiling=False, tmo=120)
+                rr = run_family(binary, d, fam, ceiling=False, tmo=90)
                 results[i]["confirmed"] = rr["status"] == results[i]["cls"]
                 results[i]["confirm_detail"] = rr["detail"]
                 if results[i]["confirmed"]:
@@ -959,6 +986,7 @@ def run(chk):
                     if results[i]["cls"] == "hang":
                         seen_sig[(case["cls"][:3], "hang")] = 1
                 elif rr["status"] == "ok":
+                    norm_answers(rr["answers"], rr.get("par"))
                     cls, det, per = orc.judge(rr)
                     results[i]["recls"] = cls
             finally:
@@ -976,7 +1004,7 @@ def run(chk):
                 try:
                     copy_with_fault(master, d, f, case)
                     rr = run_family(binary, d, fam, ceiling=False, tmo=120)
-                    norm_answers(rr["answers"])
+                    norm_answers(rr["answers"], rr.get("par"))
                     if rr["status"] == "ok" and orc.judge(rr)[0] == "OtherChanged":
                         hits += 1
                 finally:
@@ -1039,7 +1067,7 @@ def run(chk):
                      "server process died / panicked after %s: %s" % (where, crash_summary(det)), rep)
             elif cls == "hang" and res.get("confirmed"):
                 flag("C18:%s:%s.%s:hang" % (kind, chunkc, region),
-                     "query hangs (confirmed on a serial re-run, 120 s) after %s: %s" % (where, res["det"][:600]), rep)
+                     "query hangs (confirmed on a serial re-run, 45 s query timeout) after %s: %s" % (where, res["det"][:600]), rep)
             elif cls == "initerr" and res.get("confirmed"):
                 flag("C18:%s:%s.%s:server-does-not-start" % (kind, chunkc, region),
                      "engine start-up fails (all segments unavailable) after %s: %s" % (where, res["det"][:600]), rep)
@@ -1123,8 +1151,8 @@ def replay(chk, path):
         os.makedirs(os.path.join(work, "f"))
         copy_with_fault(master, os.path.join(work, "f"), f, {"fault": rp["fault"], "off": rp["offset"], "val": rp["value"]})
         run = run_family(binary, os.path.join(work, "f"), fam, ceiling=False, tmo=120)
-        norm_answers(base["answers"])
-        norm_answers(run["answers"])
+        norm_answers(base["answers"], base.get("par"))
+        norm_answers(run["answers"], run.get("par"))
         print("fault: %s" % json.dumps({k: rp[k] for k in ("file", "fault", "offset", "value", "old")}))
         print("status: %s %s" % (run["status"], run["detail"][:1500]))
         if run["status"] == "ok":
